@@ -49,6 +49,8 @@ type stubRep struct {
 	mode       string
 	lastReg    time.Duration
 	registered bool
+	moves      int
+	oldIPs     map[string]bool // addresses this replica had before it moved (nobody answers there any more)
 }
 
 func (electsim) Generate(rng *Rand, prop, tier string) *Script {
@@ -65,6 +67,7 @@ func (electsim) Generate(rng *Rand, prop, tier string) *Script {
 		s.Ops = append(s.Ops, Op{K: "init", A: int64(i), B: rev, C: int64(rng.Intn(10))}) // C: 0-6 closed, 7 dirty, 8-9 rebuilding
 	}
 	nops := rng.Range(3, 25)
+	moves := rng.Bool(40)
 	for i := 0; i < nops; i++ {
 		r := int64(rng.Intn(n))
 		switch x := rng.Intn(100); {
@@ -80,6 +83,9 @@ func (electsim) Generate(rng *Rand, prop, tier string) *Script {
 			// every attached replica is removed: the volume goes down and the next start is a new election round
 			// F: the frontend is already down when they leave (what a volume revert that fails on every replica does)
 			s.Ops = append(s.Ops, Op{K: "drop", F: rng.Bool(40)})
+		case x < 86 && moves:
+			// the replica process is rescheduled: same data and UUID, a new address; nobody answers at the old one
+			s.Ops = append(s.Ops, Op{K: "move", A: r})
 		case x < 88:
 			s.Ops = append(s.Ops, Op{K: "setrev", A: r, B: int64(rng.Range(1, 1000))})
 		case x < 93:
@@ -206,10 +212,8 @@ func (er *elRun) run() {
 		simrt.ListenAndServe("10.0.0.1:9501", h)
 	})
 	w.Pump(func() bool { return ready && w.HasHTTP("10.0.0.1:9501") }, time.Second, nil)
-	for i := 0; i < er.rf; i++ {
-		sr := &stubRep{idx: i, ip: fmt.Sprintf("10.0.0.%d", i+2), uuid: fmt.Sprintf("uuid-%d", i), rev: 1, state: "closed", up: true}
-		sr.node = w.AddNode(fmt.Sprintf("r%d", i+1), sr.ip)
-		er.reps = append(er.reps, sr)
+	startRep := func(sr *stubRep) {
+		sr.node = w.AddNode(fmt.Sprintf("r%d.%d", sr.idx+1, sr.moves), sr.ip)
 		w.ServeOn(sr.node, sr.ip+":9502", sr)
 		node := sr.node
 		ip := sr.ip
@@ -228,15 +232,28 @@ func (er *elRun) run() {
 			}
 		})
 	}
-	byIP := map[string]*stubRep{}
-	for _, sr := range er.reps {
-		byIP[sr.ip] = sr
+	for i := 0; i < er.rf; i++ {
+		sr := &stubRep{idx: i, ip: fmt.Sprintf("10.0.0.%d", i+2), uuid: fmt.Sprintf("uuid-%d", i), rev: 1, state: "closed", up: true, oldIPs: map[string]bool{}}
+		er.reps = append(er.reps, sr)
+		startRep(sr)
 	}
 	// the policy hook sees every HTTP request at the moment it is sent
 	w.HTTPPolicy = func(r *simrt.HTTPReqInfo) simrt.HTTPVerdict {
 		host := hostOnly(r.Addr)
-		sr := byIP[host]
+		sr := er.repByIP(host)
 		if sr == nil {
+			for _, x := range er.reps {
+				if x.oldIPs[host] {
+					// an address a replica has left: nobody is there
+					if r.From == er.ctrlN {
+						if er.unreach == nil {
+							er.unreach = map[string]bool{}
+						}
+						er.unreach[host] = true
+					}
+					return simrt.HTTPRefuse
+				}
+			}
 			return simrt.HTTPDeliver
 		}
 		if r.From == er.ctrlN && r.Method == "POST" && strings.Contains(r.URL, "action=start") {
@@ -279,6 +296,18 @@ func (er *elRun) run() {
 			if !sr.opened && !sr.registered {
 				sr.state = stateOf(op.C)
 			}
+		case "move":
+			if sr.opened {
+				continue // an attached replica leaves through "drop"
+			}
+			w.KillNode(sr.node, "moved")
+			sr.oldIPs[sr.ip] = true
+			sr.moves++
+			sr.ip = fmt.Sprintf("10.0.%d.%d", sr.moves, sr.idx+2)
+			sr.registered, sr.signals = false, 0
+			startRep(sr)
+			er.res.stat("replica_moved", 1)
+			er.shape = append(er.shape, "move")
 		case "down":
 			sr.up = false
 			er.res.stat("fault_replica_unreachable", 1)
@@ -298,7 +327,14 @@ func (er *elRun) run() {
 				er.round = map[string]types.RegReplica{}
 			}
 			if len(er.ctrl.ListReplicas()) == 0 {
-				// a registration counts for the start it was made for
+				// a registration counts for the start it was made for; a replica that has moved is still ONE
+				// replica: its registration under the old address is replaced
+				for k, v := range er.round {
+					if v.UUID == uuid && k != ip {
+						delete(er.round, k)
+						er.res.stat("moved_replica_registered_again", 1)
+					}
+				}
 				er.round[ip] = types.RegReplica{Address: ip, UUID: uuid, RevCount: rev, RepState: st}
 			}
 			delete(er.unreach, ip)
